@@ -28,24 +28,24 @@ type Spec struct {
 
 // Specs is the table of shared Regexps. Index = Step.Re.
 var Specs = []Spec{
-	{Name: "words", Pattern: `(\w+)\s(\w+)`},                                                     // quick code exists (captures unobservable)
-	{Name: "balanced", Pattern: `(?<o>\()+[^()]*(?<c-o>\))+(?(o)(?!))`},                          // balancing groups, no quick code
-	{Name: "balanced-anch", Pattern: `^(?:(?<o>\()|(?<c-o>\))|[^()])*(?(o)(?!))$`},               // balancing, anchored at both ends
-	{Name: "stacklimit", Pattern: `(?:(a)|b)*c`, StackLimit: 1000},                               // ErrBacktrackingStackLimit on long runs of a/b
-	{Name: "timeout", Pattern: `(x+x+)+y`, TimeoutMs: 5},                                         // times out on long runs of x
-	{Name: "backref", Pattern: `(\w)\1`},                                                         // no quick code
-	{Name: "sparse", Pattern: `(?<5>a+)(?<10>b*)|(?<7>c)`},                                       // sparse capture numbers (newMatchSparse)
-	{Name: "prefix", Pattern: `foo(\d+)`},                                                        // raw-string prefix filter
-	{Name: "digits-rtl", Pattern: `(\d)(\d*)`, Opts: regexp2.RightToLeft},                        // right to left
-	{Name: "start-anchor", Pattern: `\G(\w)`},                                                    // depends on textstart
-	{Name: "empty", Pattern: `a*?`},                                                              // empty matches (bump-along paths)
-	{Name: "tail", Pattern: `(\w+)\W*$`},                                                         // sensitive to anything after the decoded text
-	{Name: "icase", Pattern: `h(e)llo (?<who>\w+)`, Opts: regexp2.IgnoreCase},                    // named group
-	{Name: "mixed-quick", Pattern: `(?<n>\w)+\k<n>(z)?`},                                         // some slots in use, some elided
-	{Name: "nopool", Pattern: `(\w+)\W*$`, RuneBuf: -2, ReplBuf: -2, CacheN: -2},                 // pooling and caching disabled
-	{Name: "smallpool", Pattern: `(\d+)`, RuneBuf: 4 << 10, ReplBuf: 16 << 10, CacheN: 3},         // tighter limits
-	{Name: "stacklimit-bal", Pattern: `(?:(?<o>a)|(?<c-o>b))*c`, StackLimit: 600},                // stack limit reached with balancing set
-	{Name: "lookbehind", Pattern: `(?<=(\w))\s+(?=(\w))`},                                        // lookarounds with captures
+	{Name: "words", Pattern: `(\w+)\s(\w+)`},                                              // quick code exists (captures unobservable)
+	{Name: "balanced", Pattern: `(?<o>\()+[^()]*(?<c-o>\))+(?(o)(?!))`},                   // balancing groups, no quick code
+	{Name: "balanced-anch", Pattern: `^(?:(?<o>\()|(?<c-o>\))|[^()])*(?(o)(?!))$`},        // balancing, anchored at both ends
+	{Name: "stacklimit", Pattern: `(?:(a)|b)*c`, StackLimit: 1000},                        // ErrBacktrackingStackLimit on long runs of a/b
+	{Name: "timeout", Pattern: `(x+x+)+y`, TimeoutMs: 5},                                  // times out on long runs of x
+	{Name: "backref", Pattern: `(\w)\1`},                                                  // no quick code
+	{Name: "sparse", Pattern: `(?<5>a+)(?<10>b*)|(?<7>c)`},                                // sparse capture numbers (newMatchSparse)
+	{Name: "prefix", Pattern: `foo(\d+)`},                                                 // raw-string prefix filter
+	{Name: "digits-rtl", Pattern: `(\d)(\d*)`, Opts: regexp2.RightToLeft},                 // right to left
+	{Name: "start-anchor", Pattern: `\G(\w)`},                                             // depends on textstart
+	{Name: "empty", Pattern: `a*?`},                                                       // empty matches (bump-along paths)
+	{Name: "tail", Pattern: `(\w+)\W*$`},                                                  // sensitive to anything after the decoded text
+	{Name: "icase", Pattern: `h(e)llo (?<who>\w+)`, Opts: regexp2.IgnoreCase},             // named group
+	{Name: "mixed-quick", Pattern: `(?<n>\w)+\k<n>(z)?`},                                  // some slots in use, some elided
+	{Name: "nopool", Pattern: `(\w+)\W*$`, RuneBuf: -2, ReplBuf: -2, CacheN: -2},          // pooling and caching disabled
+	{Name: "smallpool", Pattern: `(\d+)`, RuneBuf: 4 << 10, ReplBuf: 16 << 10, CacheN: 3}, // tighter limits
+	{Name: "stacklimit-bal", Pattern: `(?:(?<o>a)|(?<c-o>b))*c`, StackLimit: 600},         // stack limit reached with balancing set
+	{Name: "lookbehind", Pattern: `(?<=(\w))\s+(?=(\w))`},                                 // lookarounds with captures
 }
 
 // Compile compiles the spec from scratch.
